@@ -1,7 +1,7 @@
 SPECIFICATION Spec
 CONSTANTS
   MinClasses = 1
-  MaxClasses = 3
+  MaxClasses = 2
   MroOnly = FALSE
   AscBases = TRUE
   MaxOwn = 1
@@ -10,17 +10,17 @@ CONSTANTS
   PopClasses = 2
   AttrClasses = 2
   B1 = 3
-  B2 = 3
+  B2 = 2
   B3 = 2
   B4 = 0
   B5 = 0
   MaxChain = 2
   FnOwn = 1
   BFn = 3
-  EmitAllUpTo = 1
-  Sel = 40
-  CondSel = 2
-  AltMode = 0
+  EmitAllUpTo = 0
+  Sel = 20
+  CondSel = 20
+  AltMode = 2
   KeepGoing = TRUE
 INVARIANT Inv
 CHECK_DEADLOCK FALSE
